@@ -382,6 +382,26 @@ func (c *checker) compareStyle(i int, e mstyle, o canvas.Style, data []float64) 
 		if len(o.Dashes) == 0 && !c.mutated && offsetSignTrigger(e.dashOffset, e.dashes, subpathLengths(data)) {
 			class = "dash-simplification-offset-sign"
 		}
+		if n := len(e.dashes); n >= 3 && oOn && len(o.Dashes) > 0 && o.DashOffset == e.dashOffset && (e.dashes[0] == 0 || e.dashes[n-1] == 0) {
+			// a zero at either end was folded away, which shifts the pattern: would the recorded
+			// pattern be right with the shifted offset?
+			x := e.dashOffset
+			if e.dashes[0] == 0 {
+				x -= e.dashes[1]
+			} else {
+				x += e.dashes[n-2]
+			}
+			same := true
+			for _, L := range subpathLengths(data) {
+				if !sameSet(onSet(e.dashOffset, e.dashes, 1, L), onSet(x, o.Dashes, 1, L), 1e-9) {
+					same = false
+				}
+			}
+			if same {
+				c.fail("dash-canonical-offset-dropped", detail()+fmt.Sprintf("; the recorded pattern would be right with dash offset %g", x))
+				return
+			}
+		}
 		c.dashFail(class, detail()+fmt.Sprintf("; equivalent with lengths in mm: %v, in stroke widths: %v", okMM, okW))
 		return
 	}
@@ -1013,7 +1033,7 @@ func Prop() *fw.Property {
 	return &fw.Property{
 		ID:    "C15",
 		Level: "model_checking",
-		Rule: "explicit enumeration of the history tree: every sequence of <=4 calls from a 50-call alphabet (Push, Pop, 4 coordinate systems, fill/stroke colours, widths, joiner, 6 dash patterns incl. one with a 0, fill rules, ResetStyle, 12 view compositions, SetView, ResetView, SetCoordView, 3 z-indices, 2 DrawPath, DrawText, DrawImage, MoveTo/LineTo, Fill/Stroke/FillStroke) on a Context, plus all continuations of <=3 calls after five fixed prefixes (quick); thorough adds every sequence of exactly 5 calls over a 39-call core alphabet and the continuations of <=4 core calls after the prefixes; " +
+		Rule: "explicit enumeration of the history tree: every sequence of <=4 calls from a 51-call alphabet (Push, Pop, 4 coordinate systems, fill/stroke colours, widths, joiner, 7 dash patterns incl. two with a 0, fill rules, ResetStyle, 12 view compositions, SetView, ResetView, SetCoordView, 3 z-indices, 2 DrawPath, DrawText, DrawImage, MoveTo/LineTo, Fill/Stroke/FillStroke) on a Context, plus all continuations of <=3 calls after five fixed prefixes (quick); thorough adds every sequence of exactly 5 calls over a 40-call core alphabet and the continuations of <=4 core calls after the prefixes; " +
 			"state = one history (tree node), transition = its last call; every history is run on NewContext(recording renderer) and on NewContext(canvas.New(10,6)) and compared with the matrix/style stack model: renderer calls (count, order, z-index, path data bit-for-bit, style, matrix 1e-12), Context state after the history and after popping the whole stack and once more, Canvas replay = recorded calls in ascending z then draw order (exact, with the callers' paths edited afterwards), RenderViewTo/Transform/Clip/Fit; " +
 			"distinct_nontrivial = distinct canonical dumps (model state + recorded calls) among the unprefixed histories of <=3 calls and the prefixed ones with <=2 further calls",
 		Assumptions: []string{
@@ -1028,6 +1048,10 @@ func Prop() *fw.Property {
 			// the in-place edit of dashCanonical: needs the pattern with a 0 and a path draw
 			"dash-slice-mutated": func(v *fw.Violation) bool {
 				return v.Class == "dashes-mutated-in-place" && strings.Contains(v.Case, "SetDashes(0, 0.5,0,0.5,1)")
+			},
+			// DrawPath records the canonical dash pattern but keeps the un-shifted dash offset
+			"dash-offset-dropped": func(v *fw.Violation) bool {
+				return v.Class == "dash-canonical-offset-dropped" && strings.Contains(v.Case, "SetDashes(0, 0,1,2,3)")
 			},
 			// checkDash compares the path length with d[i]-pos instead of d[i]+pos: needs a non-zero dash offset
 			"dash-offset-sign": func(v *fw.Violation) bool {
